@@ -37,12 +37,6 @@ Proof.
 Qed.
 
 (* ---- index: sortedness ------------------------------------------------------ *)
-Fixpoint keys_gt (b : Z) (ix : index) : Prop :=
-  match ix with
-  | [] => True
-  | (k, _) :: r => b < k /\ keys_gt k r
-  end.
-
 Lemma keys_gt_weaken b b' ix : b' <= b -> keys_gt b ix -> keys_gt b' ix.
 Proof. destruct ix as [|[k l] r]; cbn [keys_gt]; intuition lia. Qed.
 
